@@ -424,6 +424,32 @@ func TestCheck(t *testing.T) {
 			}
 		}
 	}
+	// rectangular products (r x k) * (k x c) for a range of row counts
+	for r := 1; r <= cfg.N(140, 330); r += 1 + r/24 {
+		idx++
+		if !cfg.Mine(idx) {
+			continue
+		}
+		rec.Eval()
+		rec.Class("times-rect")
+		k, cc := 1+r%7, 1+r%5
+		s := uint64(r)*977 + 5
+		a, b := make([]uint16, r*k), make([]uint16, k*cc)
+		for i := range a {
+			a[i] = rnd16(&s)
+		}
+		for i := range b {
+			b[i] = rnd16(&s)
+		}
+		var got []uint16
+		if p, msg := run.Safe(func() {
+			got = readBack(gf2p16.NewMatrixFromSlice(r, k, toT(a)).Times(gf2p16.NewMatrixFromSlice(k, cc, toT(b))), r, cc)
+		}); p {
+			rec.Fail("times", Case{Family: "rect", N: r}, "", "Times panicked: "+msg)
+		} else if !eq(got, gf16.FMatMul(r, k, cc, a, b)) {
+			rec.Fail("times", Case{Family: "rect", N: r}, "", fmt.Sprintf("Times of a %dx%d by a %dx%d matrix differs from the row-by-column reference product", r, k, k, cc))
+		}
+	}
 	// explicit small matrices drawn element by element (good shrinking)
 	cfg.SetRapid(cfg.N(1500, 30000), 1)
 	rapid.Check(t, func(rt *rapid.T) {
@@ -434,7 +460,7 @@ func TestCheck(t *testing.T) {
 		}
 	})
 	// generated structured matrices
-	big := cfg.N(64, 300)
+	big := cfg.N(110, 300)
 	cfg.SetRapid(cfg.N(400, 2500), 2)
 	rapid.Check(t, func(rt *rapid.T) {
 		var n int
